@@ -8,7 +8,7 @@ ID = "C03"
 TITLE = "Clock domains, resets and control inserters behave as specified"
 RULE = ("case = (generated program with 1..3 clock domains (pos/neg edge, sync/async reset, reset-less domains), reset-less "
         "registers, registers whose bits are split between domains and modules, FSMs, module trees with every nesting (<= 3 per "
-        "node, stacked along the tree) of ResetInserter / EnableInserter / DomainRenamer; in programs without renamers up to two "
+        "node, stacked along the tree) of ResetInserter / EnableInserter / DomainRenamer; up to two "
         "modules define a domain of their own under an outer domain's name (own clock / reset lines, own edge and reset kind), and "
         "modules read ClockSignal / ResetSignal of those names; scheduler order; explicit step list over "
         "{input writes, inserted-control writes, clock level changes of any subset of domains in one instant, reset line changes "
@@ -19,7 +19,9 @@ ASSUMPTIONS = [
     "reset loads init unless reset-less; inserted enable freezes everything inside it including inserted resets; the domain's "
     "own reset is applied last and never gated; a renamer moves the logic, later wrappers address the new name).",
     "A reset change never shares a step with a clock edge; inputs/controls never change in the same step as an edge.",
-    "Memories inside wrapped modules are exercised by the C11/C04 checks, not here.",
+    "The clause 'memory ports included': every sixth run is a memory under a non-empty chain of inserters / renamers (controls one "
+    "or two bits wide, signed(1), or the late-bound ~ResetSignal of the domain), driven by C11's port-level steps and judged by "
+    "C11's row-array reference; a local domain may shadow a rename *target* (open finding F58), never a rename source.",
 ]
 COMPONENTS = {"real": ["amaranth.hdl._cd.ClockDomain", "amaranth.hdl._xfrm (ResetInserter, EnableInserter, DomainRenamer, DomainLowerer)",
                        "amaranth.hdl._ir (domain propagation)", "amaranth.sim._pyrtl (edge wakers, reset block)", "amaranth.sim.pysim"],
@@ -43,7 +45,32 @@ def gen_case(seed, tier):
             "steps": steps}
 
 
+def gen_case_i(seed, tier, index):
+    """Every sixth run exercises the clause "memory ports included": a memory under a non-empty chain of Enable / Reset
+    inserters and renamers, judged by C11's row-array reference (C11 draws such wrappers in a third of its own cases)."""
+    if index % 6 == 5:
+        from props import c11
+        for k in range(40):
+            c = c11.gen_case(seed + k, tier)
+            if c["config"].get("wrap") and (c["config"]["wports"] or c["config"]["rports"]):
+                break
+        c["kind"] = "wrapped_memory"
+        c["rtlil"] = False
+        c["restart"] = False
+        return c
+    return gen_case(seed, tier)
+
+
 def run_case(case):
+    if case.get("kind") == "wrapped_memory":
+        from props import c11
+        out = c11.run_case(case)
+        if isinstance(out.stats, dict):
+            out.stats.setdefault("probes", {})["wrapped_memory_case"] = 1
+            # (C11's fault / probe names are kept apart from this check's own)
+            out.stats["faults"] = {"gate": int(bool(out.stats.get("faults", {}).get("gate"))),
+                                   "coincide": int(bool(out.stats.get("faults", {}).get("coincide")))}
+        return out
     res = Result()
     stats = {"steps": 0, "edges": 0, "faults": {"sched": 0, "coincide": 0, "inactive": 0, "srst": 0, "arst": 0, "gate": 0, "glitch-in": 0},
              "probes": dict(progdrv.count_features(case["prog"]))}
@@ -63,6 +90,8 @@ def run_case(case):
 
 
 def signature(case, violation):
+    if case.get("kind") == "wrapped_memory":
+        return {"oracle": violation["oracle"], "kind": "wrapped_memory"}
     sig = {"oracle": violation["oracle"]}
     if violation["oracle"] == "exception":
         sig["exc"] = violation["detail"].get("type")
@@ -74,4 +103,10 @@ def signature(case, violation):
 
 
 def simplify(case):
+    if case.get("kind") == "wrapped_memory":
+        from props import c11
+        for c in c11.simplify(case):
+            if c["config"].get("wrap"):
+                yield c
+        return
     yield from progdrv.simplify_prog(case)
